@@ -194,6 +194,9 @@ C02_Table(zz) ==
 \cup { L2(mn, <<W(m, w, KW(w))>>) : mn \in {"inc", "dec", "neg", "not", "mul", "div", "idiv", "imul"} \cap Mnemonics, w \in {8, 16, 32, 64}, m \in MemT }
 C02_Cls2(sel(_)) == UNION {C02_Class2(m) : m \in {x \in ShapesRed : sel(x)}}
 C02_Cls(sel(_)) == UNION {C02_Class(m) : m \in {x \in ShapesRed : sel(x)}}
+\* the stack pointer as (unscaled) index under every encoding class - the shape NASM-style swapping rewrites - with every kind of base
+ShapesSp == { Mem("", 0, a, b, 4, 0, "is", d) : a \in {64, 32}, b \in {0, 3, 5, 8, 9, 12, 13, 15}, d \in {NoD, D(FALSE, <<16,0,0,0>>, "hex"), D(TRUE, <<129,0,0,0>>, "hex")} }
+C02_Sp(zz) == UNION {C02_Class(m) \cup C02_Class2(m) : m \in ShapesSp}
 
 (* ================================ C03 =================================== *)
 Mag8(lo4, hi4) == lo4 \o hi4
@@ -460,6 +463,7 @@ Selected == CASE IOEnv.CORPUS = "C01" -> CorpusC01(0)
               [] IOEnv.CORPUS = "C02h" -> C02_Cls2(LAMBDA m : m.a = 64 /\ m.b < 9)
               [] IOEnv.CORPUS = "C02i" -> C02_Cls2(LAMBDA m : m.a = 64 /\ m.b >= 9)
               [] IOEnv.CORPUS = "C02j" -> C02_Cls2(LAMBDA m : m.a = 32)
+              [] IOEnv.CORPUS = "C02l" -> C02_Sp(0)
               [] IOEnv.CORPUS = "C03" -> CorpusC03(0)
               [] IOEnv.CORPUS = "C04a" -> C04_Mmx(0) \cup C04_Sse(0) \cup C04_Mov(0) \cup C04_VMov(0)
               [] IOEnv.CORPUS = "C04b" -> C04_VexRest(0) \cup C04_Bmi(FALSE)
